@@ -544,11 +544,16 @@ impl Scope {
         let module = module.with_forwarded();
         match as_n {
             UseAs::KeepName => {
-                let name = name
-                    .rfind([':', '/'])
-                    .map_or(name, |i| &name[i + 1..])
-                    .replace('_', "-");
-                self.define_module(name, module.expose(expose));
+                // The last part of the url, without any leading underscore
+                // or file extension.
+                let name =
+                    name.rfind([':', '/']).map_or(name, |i| &name[i + 1..]);
+                let name = name.strip_prefix('_').unwrap_or(name);
+                let name = name.split_once('.').map_or(name, |(n, _)| n);
+                self.define_module(
+                    name.replace('_', "-"),
+                    module.expose(expose),
+                );
             }
             UseAs::Star => {
                 self.expose_star(&module.expose(expose));
